@@ -33,6 +33,8 @@
  *   obsre  observer life cycle: FETCH registration with payload, the same request under a new token (replacement through
  *          the cache key), a second subscription (GET with query), deregistration by a token the server never saw,
  *          coap_delete_resource while observed
+ *   xtok      both contexts allow 16-byte tokens: the client session first probes RFC 8974 support (coap_send_test_extended_token),
+ *             then a request with a 2-byte and one with a 12-byte token
  *   obsfetch  FETCH observations with the client's block handling ON: small body, 2500-byte body sent block-wise (one Observe
  *          token kept per block), notifications, coap_cancel_observe of both
  *   b1o.<digits>  the five hand-built Block1 requests of b1raw in the order given (digits 0..4, repeats allowed)
@@ -247,6 +249,7 @@ static coap_endpoint_t *ep, *ep2;
 static coap_session_t *cs;
 static coap_resource_t *r_obs;
 static int w_oscore;
+static int w_xtok;                /* scenario xtok: both contexts allow 16-byte tokens, so the client probes RFC 8974 support first */
 static int w_block = 1;           /* libcoap's block handling on both contexts (off for the helper scripts) */
 static int w_srv_block = 1, w_cli_block = 1;   /* per scenario: the hand-written side of b1raw / b2raw has it off */
 static uint8_t body[2500];
@@ -586,6 +589,7 @@ static int world_up(int oscore, int extras) {
   if (!srv) return 0;
   if (sim_nctx < SIM_MAX_CTX) sim_ctxs[sim_nctx++] = srv;
   if (w_block && w_srv_block) coap_context_set_block_mode(srv, COAP_BLOCK_USE_LIBCOAP | COAP_BLOCK_SINGLE_BODY);
+  if (w_xtok) coap_context_set_max_token_size(srv, 16);
   if (oscore) {
     coap_str_const_t c = { sizeof(osc_conf_srv) - 1, (const uint8_t *)osc_conf_srv };
     coap_oscore_conf_t *oc = coap_new_oscore_conf(c, NULL, NULL, 0);
@@ -618,6 +622,7 @@ static int world_up(int oscore, int extras) {
   if (!cli) return 0;
   if (sim_nctx < SIM_MAX_CTX) sim_ctxs[sim_nctx++] = cli;
   if (w_block && w_cli_block) coap_context_set_block_mode(cli, COAP_BLOCK_USE_LIBCOAP | COAP_BLOCK_SINGLE_BODY);
+  if (w_xtok) coap_context_set_max_token_size(cli, 16);
   coap_register_response_handler(cli, on_response);
   coap_register_nack_handler(cli, on_nack);
   sim_addr(&a, ntohs(ep->bind_addr.addr.sin.sin_port));
@@ -776,6 +781,22 @@ static void scn_osc(void) {
   p = new_req(COAP_MESSAGE_CON, COAP_REQUEST_CODE_GET, (const uint8_t *)"\x41\x42", 2, "r");
   if (!p) { out_put("pdu-fail"); return; }
   tracked_send(cs, p);
+  settle(120000);
+}
+/* extended tokens (RFC 8974): the first request of the session is preceded by libcoap's own probe (coap_send_test_extended_token,
+ * a CON with a 16-byte token the server answers 4.xx / resets), then a request with a short and one with a 12-byte token */
+static void scn_xtok(void) {
+  coap_pdu_t *p;
+  int up;
+  w_xtok = 1;
+  up = world_up(0, 0);
+  w_xtok = 0;
+  if (!up) { out_put("setup-fail"); return; }
+  p = new_req(COAP_MESSAGE_CON, COAP_REQUEST_CODE_GET, (const uint8_t *)"\x71\x72", 2, "r");
+  if (!p) out_put("pdu-fail"); else tracked_send(cs, p);
+  settle(120000);
+  p = new_req(COAP_MESSAGE_CON, COAP_REQUEST_CODE_GET, (const uint8_t *)"\x73\x02\x03\x04\x05\x06\x07\x08\x09\x0a\x0b\x0c", 12, "r");
+  if (!p) out_put("pdu-fail"); else tracked_send(cs, p);
   settle(120000);
 }
 static void scn_h508(void) {
@@ -1311,7 +1332,7 @@ static const struct { const char *name; void (*fn)(void); } scns[] = {
   {"uri", scn_uri}, {"pdu", scn_pdu}, {"rr", scn_rr}, {"b1", scn_b1}, {"b2", scn_b2}, {"obs", scn_obs},
   {"setup", scn_setup}, {"osc", scn_osc}, {"h508", scn_h508},
   {"wkc", scn_wkc}, {"b1raw", scn_b1raw}, {"b2raw", scn_b2raw}, {"obsblk", scn_obsblk}, {"cache", scn_cache}, {"async", scn_async},
-  {"obsre", scn_obsre}, {"obsfetch", scn_obsfetch}, {"oscobs", scn_oscobs}, {"echo", scn_echo},
+  {"obsre", scn_obsre}, {"obsfetch", scn_obsfetch}, {"oscobs", scn_oscobs}, {"echo", scn_echo}, {"xtok", scn_xtok},
 };
 
 static void on_alarm(int sig) {
